@@ -448,6 +448,11 @@ def _last_dot_confined(ctx, f, g, rd, q, msg):
                        'confined to the text before the first colon' if ok else
                        'the last dot is searched in text that still contains the message: a dot after the colon (`ValueError: invalid ratio 3.5`) moves the start of the class name, the stripped name '
                        'becomes empty and -- an empty want matches everything -- a wrong exception type passes under IGNORE_EXCEPTION_DETAIL', anchor=q)
+            elif isinstance(c.func, ast.Attribute) and c.func.attr in ('find', 'index', 'partition') and c.args and isinstance(c.args[0], ast.Constant) and c.args[0].value == '.':
+                n_ops += 1
+                rep.ob('C03.R6', ctx.loc(f, c), 'dot search ' + ctx.src(c), False,
+                       'the dotted path of the exception name is cut at the FIRST dot: for a name with two or more dots (xml.etree.ElementTree.ParseError) only the first component is '
+                       'dropped, so a want and a got that qualify the same class differently no longer compare equal under IGNORE_EXCEPTION_DETAIL', anchor=q)
     rep.floor('C03.R6', 'last-dot operations in _strip_exception_details', n_ops, 1)
 
 
@@ -535,6 +540,7 @@ from ..selftest import fire, silent      # noqa: E402
 DE = 'xdoctest/doctest_example.py'
 CK = 'xdoctest/checker.py'
 VARIANTS = [
+    fire('class-name-cut-at-the-first-dot', 'C03.R6', (CK, "    i = msg.rfind('.', 0, end)\n", "    i = msg.find('.', 0, end)\n")),
     fire('expected-exception-ignored-under-ignore-want', 'C03.R1b', (DE, "                    except Exception:\n                        if part.want:\n", "                    except Exception:\n                        if part.want and not runstate['IGNORE_WANT']:\n")),
     fire('first-line-of-exception-display-compared', 'C03.R1b', (DE, "exc_got = traceback.format_exception_only(*exception[:2])[-1]", "exc_got = traceback.format_exception_only(*exception[:2])[0]")),
     fire('traceback-stack-group-greedy', 'C03.R5', (CK, "    (?P<stack> .*?)      # don't blink", "    (?P<stack> .*)       # don't blink")),
